@@ -193,7 +193,11 @@ Theorem C03_tl_spec_model : forall c, tl_spec c (tl_model c) = true.
 Proof. exact tl_spec_model. Qed.
 Print Assumptions C03_tl_spec_model.
 
-(* K4, statement layer: the Turtle text TurtleSerializer writes for a graph WITHOUT blank nodes (header of @prefix
+(* K4, statement layer (round 5: with blank nodes written as LABELS, _:id as BNode.n3() gives it - what the serialiser does
+   with a blank node it cannot nest: referenced more than once, or a subject that is referenced; the [ ] and ( ) forms
+   are not modelled, "which blank nodes are written as labels" is part of the observed plan like the ordering).  The
+   theorem returns the SAME labels; rdflib's Turtle reader renames them per document (C12), the harness undoes that.
+   The Turtle text TurtleSerializer writes for such a graph (header of @prefix
    lines, one statement per subject with ; and , lists, a for rdf:type, () for rdf:nil, prefixed names or <iri>,
    literals quoted by Literal._quote_encode with @lang / ^^datatype, bare xsd:integer and xsd:boolean) and a reader for
    exactly that sub-language.  The grouping/ordering (plan) and the prefixed-name decisions (q, with the prefix table
